@@ -23,7 +23,7 @@ import time
 from typing import Any, Dict, List, Optional
 
 from dst import seams
-from dst.core import Canon, GeneratorDefect, Violation, digest, exc_summary, intify_keys, jsonable
+from dst.core import _ID_RE, Canon, GeneratorDefect, Violation, digest, exc_summary, intify_keys, jsonable
 
 
 class E1Run:
@@ -80,6 +80,9 @@ class E1Run:
         import primaite
         from primaite.session.environment import PrimaiteGymEnv
 
+        if self.args.get("io_override") is not None:
+            self.scenario["io_settings"] = dict(self.args["io_override"])
+
         run_dir = os.environ.get("VERIF_RUN_DIR")
         if run_dir:
             from pathlib import Path
@@ -98,6 +101,12 @@ class E1Run:
             self.do_reset(op[1])
         elif kind == "req":
             self.do_req(op[1], op[2] if len(op) > 2 else "fault")
+        elif kind == "mark":
+            # start of the compared part of the history (E3): forget the log and the identifier numbering so far
+            self.log = []
+            self.canon = Canon()
+        elif kind in ("b_new", "b_reset", "b_step", "b_close"):
+            self.do_b(op)
         else:
             raise GeneratorDefect(f"unknown op {op}")
 
@@ -158,6 +167,7 @@ class E1Run:
         env = self.env
         for m in self.monitors:
             m.before_reset(self, seed)
+        old_objs = component_objects(env.game) if self.args.get("identity_walk") else None
         try:
             ret = env.reset(seed=seed)
         except Violation:
@@ -170,10 +180,17 @@ class E1Run:
         self.steps_since_reset = 0
         self.episodes += 1
         self.fault("F6_reset")
+        if old_objs is not None:
+            new_objs = component_objects(env.game)
+            shared = [type(o).__name__ for i, o in new_objs.items() if i in old_objs]
+            self.probe("identity_walk_objects", len(new_objs))
+            if shared:
+                kinds = sorted(set(shared))
+                raise Violation("C04", "component-object-survives-reset", f"{len(shared)} simulation component objects of the new game are also reachable from the previous game: {kinds[:8]}", sig="component-object-survives-reset:" + ",".join(kinds[:4]), detail={"kinds": kinds})
         for m in self.monitors:
             m.after_reset(self, seed, ret)
         if self.record_log:
-            self.log.append({"reset": seed, "obs": self.canon.obj(jsonable(ret[0]))})
+            self.log.append({"reset": seed, "obs": self.canon.obj(jsonable(self.env.agent.observation_manager.current_observation))})
 
     def do_req(self, req: List, label: str):
         sim = self.env.game.simulation
@@ -193,13 +210,52 @@ class E1Run:
         if self.record_log:
             self.log.append({"req": self.canon.obj(jsonable(req)), "status": getattr(resp, "status", None)})
 
+    # -- second environment instance in the same process (C04b) ------------------------------------------------------
+    def do_b(self, op: List):
+        """Ops on a second instance B. The three process-global RNG states are saved/restored around every B operation
+        so that what is compared is state leakage, not the (inherent) sharing of the global RNGs."""
+        import random as _random
+
+        import numpy as np
+
+        from dst.core import intify_keys
+
+        st = (_random.getstate(), np.random.get_state())
+        kind = op[0]
+        try:
+            if kind == "b_new":
+                from primaite.session.environment import PrimaiteGymEnv
+
+                self.env_b = PrimaiteGymEnv(intify_keys(copy.deepcopy(op[1])))
+                self.fault("F6_second_instance")
+            elif getattr(self, "env_b", None) is None:
+                return
+            elif kind == "b_reset":
+                self.env_b.reset(seed=op[1] if len(op) > 1 else None)
+            elif kind == "b_step":
+                self.env_b.step(int(op[1]) % self.env_b.action_space.n)
+                self.probe("b_steps")
+            elif kind == "b_close":
+                self.env_b.close()
+                self.env_b = None
+        except Violation:
+            raise
+        except Exception as e:  # noqa: BLE001
+            info = exc_summary(e)
+            raise Violation("C04", "second-instance-raises", f"instance B {kind} raised {info['type']}: {info['text']}", sig=f"second-instance-raises:{kind}:{info['type']}:{info['where']}", detail={"exc": info})
+        finally:
+            _random.setstate(st[0])
+            np.random.set_state(st[1])
+
     def log_step(self, ret):
         obs, reward, term, trunc, info = ret
         agents = {}
         for name, agent in self.env.game.agents.items():
             h = agent.history[-1]
             agents[name] = [h.action, jsonable(h.parameters), jsonable(h.request), h.response.status, jsonable(h.response.data), h.reward]
-        self.log.append(self.canon.obj({"obs": jsonable(obs), "reward": reward, "trunc": trunc, "agents": agents}))
+        # the nested observation carries the same information as a flattened one and lets a divergence be located
+        nested = self.env.agent.observation_manager.current_observation
+        self.log.append(self.canon.obj({"obs": jsonable(nested), "reward": reward, "trunc": trunc, "agents": agents}))
 
     # -- op generation -----------------------------------------------------------------------------------------------
     def gen_op(self) -> List:
@@ -310,7 +366,12 @@ class E1Run:
             dst = r.choice(ips + ["ALL"]) if ips else "ALL"
             return ["req", base + ["acl", "add_rule", r.choice(["PERMIT", "DENY"]), r.choice(["ALL", "tcp", "udp", "icmp"]), src, "NONE", r.choice(["ALL", 80, 5432]), dst, "NONE", r.choice(["ALL", 80, 5432]), r.randint(0, 21)], k]
         if k == "FS_file" and hasattr(node, "file_system") and node.file_system.folders:
-            folder = r.choice(sorted(f.name for f in node.file_system.folders.values()))
+            # folders named after an opaque identifier (FTP backup folders are named by the database service's uuid)
+            # are skipped: a concrete op must mean the same thing in every execution it is replayed in
+            names = sorted(f.name for f in node.file_system.folders.values() if not _ID_RE.search(f.name))
+            if not names:
+                return None
+            folder = r.choice(names)
             fobj = node.file_system.get_folder(folder)
             files = sorted(f.name for f in fobj.files.values()) if fobj else []
             if files and r.random() < 0.7:
@@ -326,7 +387,7 @@ class E1Run:
         a = self.args
         t0 = time.time()
         seams.begin_run(
-            entropy_seed=a.get("entropy_seed", seams.derive(self.seed, "entropy")),
+            entropy_seed=a.get("entropy_seed", seams.derive(self.seed, "entropy" + str(a.get("entropy_salt", "")))),
             clock_script=a.get("clock") if a.get("clock") is not None else seams.clock_script_for(self.seed, a.get("clock_kind", "auto")),
             id_width=a.get("id_width", "mixed"),
             logging_on=bool(a.get("logging_on")),
@@ -361,10 +422,18 @@ class E1Run:
             else:
                 # gymnasium contract: reset before the first step
                 first = ["reset", None] if self.ops_rng.random() < 0.8 else None
+                if a.get("first_reset_seed") is not None:
+                    first = ["reset", int(a["first_reset_seed"])]
                 n_ops = int(a.get("n_ops", 40))
                 i = 0
+                mark_at = a.get("mark_at")
                 while i < n_ops:
-                    batch = [first] if (i == 0 and first) else self.gen_ops()
+                    if mark_at is not None and i >= mark_at:
+                        # end of the dirtying history: from here on the log is compared with a fresh environment's (C04a)
+                        batch = [["mark"], ["reset", int(a.get("mark_reset_seed", 0))]]
+                        mark_at = None
+                    else:
+                        batch = [first] if (i == 0 and first) else self.gen_ops()
                     for op in batch:
                         self.ops.append(op)
                         self.do_op(op)
@@ -418,6 +487,45 @@ class E1Run:
             out["log"] = self.log
             out["log_digest"] = digest(self.log)
         return out
+
+
+def component_objects(game) -> Dict[int, Any]:
+    """id -> object for every SimComponent / agent-side stateful object reachable from a game (identity walk, C04)."""
+    from primaite.game.agent.interface import AbstractAgent
+    from primaite.simulator.core import SimComponent
+
+    seen: Dict[int, Any] = {}
+    found: Dict[int, Any] = {}
+    stack = [game]
+    import enum
+    import types
+
+    while stack:
+        o = stack.pop()
+        if id(o) in seen or o is None or isinstance(o, (str, bytes, int, float, bool, enum.Enum, type, types.FunctionType, types.MethodType, types.ModuleType)):
+            continue
+        seen[id(o)] = o
+        if isinstance(o, (SimComponent, AbstractAgent)):
+            found[id(o)] = o
+        if isinstance(o, dict):
+            stack.extend(o.values())
+            continue
+        if isinstance(o, (list, tuple, set, frozenset)):
+            stack.extend(o)
+            continue
+        mod = type(o).__module__ or ""
+        if not mod.startswith("primaite"):
+            continue
+        d = getattr(o, "__dict__", None)
+        if d:
+            stack.extend(d.values())
+        priv = getattr(o, "__pydantic_private__", None)
+        if priv:
+            stack.extend(priv.values())
+        extra = getattr(o, "__pydantic_extra__", None)
+        if extra:
+            stack.extend(extra.values())
+    return found
 
 
 _FRAME_MBITS: Optional[float] = None
